@@ -132,17 +132,21 @@ pub fn gen_topic_name(t: &mut Tape, cfg: &GenCfg) -> Result<TopicName, GenError>
     let len = gen_len(t, cfg);
     let prefix = ["", "", "", "$share/", "$SYS/", "/"][t.pick(6)];
     let s = string_of(t, len, ALPHA_TOPIC, prefix);
+    if !crate::specpred::name_valid(&s) {
+        return Err(GenError(format!("MQV-INTERNAL: the topic name generator produced {:?}, which the MQTT rule does not allow", s)));
+    }
     TopicName::try_from(s.clone()).map_err(|e| GenError(format!("valid topic name {:?} refused by the constructor: {:?}", s, e)))
 }
 
-const LEVELS: &[&str] = &["a", "", "bc", "+", "\u{e9}\u{1F600}", "$x", "Z 0", "x", "\u{FEFF}b", " ", "\u{301}\u{10FFFF}", "a\tb"];
+const LEVELS: &[&str] = &["a", "", "bc", "+", "\u{e9}\u{1F600}", "$x", "Z 0", "x", "\u{FEFF}b", " ", "\u{301}\u{10FFFF}", "a\tb", "$share", "$SYS", "\u{FFFF}\u{FDD0}", "\u{7f}\u{85}"];
 
 pub fn gen_filter_string(t: &mut Tape, cfg: &GenCfg) -> String {
     let mut s = String::new();
     let shared = t.chance(1, 5);
     if shared {
         s.push_str("$share/");
-        s.push_str(["g", "grp", "\u{e9}", "$g", "\u{1F600}x"][t.pick(5)]);
+        // share names include the prefix word itself, names that contain it, and characters that sort before '/'
+        s.push_str(["g", "grp", "\u{e9}", "$g", "\u{1F600}x", "$share", "$share$share", "g-1", "$SYS", "a b", "x$share"][t.pick(11)]);
         s.push('/');
     }
     let n = 1 + t.weighted(&[6, 5, 3, 2, 1]);
@@ -152,6 +156,10 @@ pub fn gen_filter_string(t: &mut Tape, cfg: &GenCfg) -> String {
     }
     if t.chance(1, 4) {
         *levels.last_mut().unwrap() = "#".to_string();
+    }
+    if !shared && levels[0] == "$share" {
+        // "$share/..." without a share name and a filter behind it would be a malformed shared filter
+        levels[0] = "$shared".to_string();
     }
     // long filters: stretch one ordinary level
     let target = gen_len(t, cfg);
@@ -179,6 +187,10 @@ pub fn gen_filter_string(t: &mut Tape, cfg: &GenCfg) -> String {
 
 pub fn gen_filter(t: &mut Tape, cfg: &GenCfg) -> Result<TopicFilter, GenError> {
     let s = gen_filter_string(t, cfg);
+    if !crate::specpred::filter_valid(&s) {
+        // a slip of this generator, not of the library
+        return Err(GenError(format!("MQV-INTERNAL: the filter generator produced {:?}, which MQTT 4.7 / 4.8 does not allow", s)));
+    }
     TopicFilter::try_from(s.clone())
         .map_err(|e| GenError(format!("valid topic filter {:?} refused by the constructor: {:?}", s, e)))
 }
